@@ -12,7 +12,6 @@ import (
 	"verifsim/simdisk"
 	"verifsim/worlds/chainkit"
 
-	"github.com/youchainhq/go-youchain/common"
 	"github.com/youchainhq/go-youchain/core/rawdb"
 	"github.com/youchainhq/go-youchain/core/types"
 )
@@ -171,7 +170,10 @@ type sut struct {
 
 var errPanicked = errors.New("PANIC in InsertChain (process died)")
 
-// insert calls InsertChain the way the downloader/fetcher goroutines do. A panic that escapes
+// insert calls InsertChain the way production does: the downloader with a batch of consecutive
+// blocks (you/downloader/downloader.go:1433 importBlockResults), the fetcher with a single
+// announced/propagated block (you/handler.go:159), the consensus commit path with a single
+// block (you/ucon_handler.go:189) and the future-block ticker (core/blockchain.go:1372). A panic that escapes
 // from the code under test is a process death: it is reported as a violation (class named
 // after the panicking function), the node is marked dead and its goroutines are told to quit.
 // The call runs on a helper goroutine so that the simulator survives it.
@@ -386,7 +388,17 @@ func (cx *world) crashAt(logDisk *simdisk.Disk, o *offer, pt point, nseg int, x 
 	}
 	cx.fam = "@" + windowFamily(prevK, nextK)
 	defer func() { cx.fam = "" }()
-	im, err := chainkit.NewImporter(img, cx.w.Genesis, kit.Wait)
+	im, err, pv, stack := cx.restart(img)
+	if pv != nil {
+		fn, frames := repoFrames(stack)
+		if fn == "" {
+			panic(fmt.Sprintf("c11world: harness panic during restart: %v\n%s", pv, stack))
+		}
+		cx.leaked = true
+		r.Report("crash-restart-panic"+cx.fam, "%s: restart through NewVRFServer/NewBlockChain panicked in %s: %v | %s", where, fn, pv, frames)
+		r.Logf("  p=%s [%s|%s] RESTART PANIC in %s: %v", pt, prevK, nextK, fn, pv)
+		return
+	}
 	if err != nil {
 		r.Report("crash-restart-failed"+cx.fam, "%s: restart through NewVRFServer/NewBlockChain failed: %v", where, err)
 		r.Logf("  p=%s [%s|%s] RESTART FAILED: %v", pt, prevK, nextK, err)
@@ -431,8 +443,6 @@ func (cx *world) crashAt(logDisk *simdisk.Disk, o *offer, pt point, nseg int, x 
 	r.FP("crash", prevK, nextK, fmt.Sprint(rewound), out)
 }
 
-var _ = common.Hash{}
-
 // windowFamily names the ordering window a crash point falls into, from the kinds of the last
 // durable and the first lost write (the write order of WriteBlockWithState / reorg / insert):
 // "head-switch" = inside the three writes of the head switch (head-header marker, canonical
@@ -450,4 +460,16 @@ func windowFamily(prev, next string) string {
 		return "post-head"
 	}
 	return "other"
+}
+
+// restart opens a node on a durable image through the real constructors; a panic of the code
+// under test during start-up is caught (the restart clause of the property failed).
+func (cx *world) restart(img *simdisk.Disk) (im *chainkit.Importer, err error, pv interface{}, stack string) {
+	defer func() {
+		if v := recover(); v != nil {
+			pv, stack = v, string(debug.Stack())
+		}
+	}()
+	im, err = chainkit.NewImporter(img, cx.w.Genesis, kit.Wait)
+	return
 }
